@@ -118,6 +118,12 @@ def gen_cases(rng, tier):
     for shp in shapes:
         bits = rand_vals(rng, math.prod(shp))
         cases.append(Case("tensor", {"shape": list(shp), "bits": bits}, nt(bits)))
+    # long value lists: volume for the parse(print v) = v assumption
+    for k in range(36 if big else 2):
+        n = 2000 if big else 400
+        shp = [n] if k % 3 == 0 else ([n // 8, 8] if k % 3 == 1 else [5, n // 20, 4])
+        bits = rand_vals(rng, math.prod(shp))
+        cases.append(Case("tensor", {"shape": shp, "bits": bits}, True))
     # -0.0 / +0.0 / extremes explicitly
     cases.append(Case("tensor", {"shape": [2, 3], "bits": [SIGN, 0, MAXF, MAXF | SIGN, 1, 1 | SIGN]}, True))
     cases.append(Case("tensor", {"shape": [len(CRITICAL)], "bits": [f2b(x) for x in CRITICAL]}, True))
@@ -328,7 +334,7 @@ def gobj_out(o):
             return None
         return f"(OTensor (mkDense {gnlist(o['shape'])} {gzl(o['bits'])}))"
     if t == "sptensor":
-        if isinstance(o["bits"], dict) or o["nnz"] != len(o["subs"]):
+        if isinstance(o["bits"], dict) or o["nnz"] != len(o["subs"]) or any(x < 0 for r in o["subs"] for x in r):
             return None
         return f"(OSptensor (mkSp {gnlist(o['shape'])} {gnmat(o['subs'])} {gzl(o['bits'])}))"
     if t == "ktensor":
